@@ -274,7 +274,6 @@ func checkBytes(ctx *Ctx, s []byte, cfg c02Cfg, cuts []int, allCuts bool) *repor
 	}
 
 	// prefixes
-	prevK, prevN := -1, 0
 	cut := func(k int) *report.Violation {
 		if k < 0 || k > len(s) {
 			return nil
@@ -301,10 +300,12 @@ func checkBytes(ctx *Ctx, s []byte, cfg c02Cfg, cuts []int, allCuts bool) *repor
 			}
 			return viol("C02", "prefix", "calls delivered for the prefix of length %d are not a prefix of the calls for all %d bytes: call #%d is %s vs %s (%d vs %d calls)", k, len(s), at, got, want, len(lk), len(calls))
 		}
-		if prevK == k-1 && len(lk)-prevN > 1 {
-			return viol("C02", "call-without-byte", "one more input byte (prefix %d -> %d) delivered %d more calls", k-1, k, len(lk)-prevN)
-		}
-		prevK, prevN = k, len(lk)
+		// (Every prefix is itself held to "no more calls than bytes" by the
+		// recorder. A stricter, local form — one more byte, at most one more
+		// call — was removed: the property does not say WHEN a call that has
+		// consumed its bytes is delivered, and a decoder that checks a whole
+		// repeat group before delivering any of it delivers several calls on
+		// the byte that completes the group; mutants/neutral-agent-n11.)
 		if ctx.Stats != nil {
 			ctx.Stats.Add("prefix_checks", 1)
 		}
